@@ -20,7 +20,10 @@ def c12 : Machine where
   mstep := fun m line out =>
     match words line with
     | ["new", c] => ({ cap := c.toNat?.getD 0 }, none)
-    | _ => match Conduit.parseOp line, Conduit.parseOut out with
+    | _ =>
+      -- the harness re-polls each side with alternating wakers; waking the one of an earlier poll is a lost wake-up
+      if (words out).contains "stale" then (m, some "stale-waker-woken") else
+      match Conduit.parseOp line, Conduit.parseOut out with
       | some op, some o => m.step op o
       | _, _ => (m, some "unparsable")
 
